@@ -18,7 +18,15 @@ func Harness_sleep() {
 	var prog MalType
 	e := env.NewSubordinateEnv(Base)
 	shape := vrt.Param("shapelo", 0) + vrt.Concrete(vrt.Choice("shape", vrt.Param("shapes", 5)))
-	if shape >= 5 {
+	cancelAt := -1
+	if shape >= 7 {
+		// explicit cancellation before a far deadline while the program sleeps: EVAL returns by the cancellation.
+		// (Multiples of 500 ms as below.)
+		ms = 500 * vrt.IntRange("ms_units", 0, 6)
+		ms2 = 500 * vrt.IntRange("ms2_units", 0, 2)
+		d = 3500
+		cancelAt = 500 * vrt.IntRange("cancel_units", 0, 6)
+	} else if shape >= 5 {
 		// waiting on a future that another evaluation started earlier under its own (unlimited) context: the wait
 		// is bounded by the context of the evaluation that waits. (Durations up to 3 s so that a native replay ends.
 		// Both are multiples of 500 ms, so that being late means being late by more than the latency allowance
@@ -42,15 +50,29 @@ func Harness_sleep() {
 		prog = lst(sym("deref"), lst(sym("future"), lst(sym("sleep"), ms)))
 	case 5:
 		prog = lst(sym("deref"), sym("fut"))
-	default:
+	case 6:
 		prog = lst(sym("try"), lst(sym("deref"), sym("fut")), lst(sym("catch"), sym("e"), lst(sym("deref"), sym("fut"))), lst(sym("finally"), lst(sym("deref"), sym("fut"))))
+	case 7:
+		prog = lst(sym("sleep"), ms)
+	default:
+		prog = lst(sym("try"), lst(sym("sleep"), ms), lst(sym("catch"), sym("e"), lst(sym("sleep"), ms2)))
 	}
 	start := vrt.Now()
 	ctx, cancel := context.WithTimeout(context.Background(), time.Duration(d)*time.Millisecond)
 	defer cancel()
+	if cancelAt >= 0 {
+		tm := time.AfterFunc(time.Duration(cancelAt)*time.Millisecond, cancel)
+		defer tm.Stop()
+	}
 	_, err := lisp.EVAL(ctx, prog, e)
 	elapsed := vrt.Now() - start
 	limit := int64(d) * int64(time.Millisecond)
+	if cancelAt >= 0 && cancelAt < d {
+		limit = int64(cancelAt) * int64(time.Millisecond)
+		if shape == 7 && ms > cancelAt {
+			vrt.Assert(err != nil, "evaluation cancelled in the middle of a sleep returned a value")
+		}
+	}
 	if !vrt.Symbolic() {
 		// native replay runs in wall-clock time: scheduler and timer latency are outside the claim
 		limit += int64(200 * time.Millisecond)
@@ -61,5 +83,6 @@ func Harness_sleep() {
 }
 
 // Harness_wait: the shapes of Harness_sleep in which the evaluation waits on a future started earlier
-// by another evaluation under another context (parameters shapelo=5, shapes=2).
+// by another evaluation under another context, or is cancelled explicitly before a far deadline while it sleeps
+// (parameters shapelo=5, shapes=4).
 func Harness_wait() { Harness_sleep() }
